@@ -174,6 +174,8 @@ def generate(rng, tier):
         if u < 0.75:
             scale = rng.choice([1e-3, 1.0, 1.0, 1.0, 1e3, 1e7])
             offset = rng.choice([0.0, 0.0, 1e3 * scale])
+            if scale == 1.0 and rng.random() < 0.3:
+                offset = rng.choice([5e5, 4e6, 1e7])        # a small survey far from the origin (projected metres): extent/offset down to 1e-6
             lattice = rng.random() < 0.5
             es, ns = cloud(rng, rng.randint(3, maxpts), scale, offset, lattice)
             proj = None
@@ -222,7 +224,8 @@ def generate(rng, tier):
                     for j_ in range(ne):
                         if abs(i_ - ci) + abs(j_ - cj) <= 1:
                             vals[i_][j_] = None
-            proj = rng.choice([["affine", [2.0, 1.0, 0.5, -3.0]], ["affine", [0.5, -2.0, 4.0, 10.0]], ["cube", [4.0]], ["cube", [64.0]]])
+            proj = rng.choice([["affine", [2.0, 1.0, 0.5, -3.0]], ["affine", [0.5, -2.0, 4.0, 10.0]], ["cube", [4.0]], ["cube", [64.0]],
+                               ["shear", [0.5]], ["shear", [-0.25]]])      # (shear: an affine map that mixes the axes - the projected footprint is a parallelogram)
             kw = {}
             if rng.random() < 0.2:
                 kw["shape"] = (rng.randint(3, 6), rng.randint(3, 6))
